@@ -293,7 +293,13 @@ func (g *G) line(withCond bool) *ast.Line {
 	ln.Els = append(ln.Els, ast.El{Text: t})
 	for k := r.Intn(3); k > 0; k-- {
 		ln.Els[len(ln.Els)-1].Text += " "
-		ln.Els = append(ln.Els, ast.El{E: g.expr(g.P.ExprDepth, "")})
+		if r.Intn(10) == 0 {
+			// a whole inline expression that is a call of the recycling host function (never nested: the value must be used
+			// before the next call for the written order to be the observable one)
+			ln.Els = append(ln.Els, ast.El{E: ast.Fn("tick")})
+		} else {
+			ln.Els = append(ln.Els, ast.El{E: g.expr(g.P.ExprDepth, "")})
+		}
 		ln.Els = append(ln.Els, ast.El{Text: " w"})
 	}
 	if withCond && r.Intn(3) == 0 {
